@@ -11,7 +11,8 @@ from runner import Failure, Outcome, h64
 from schema import (HAND, schemas, emit_schema, F_COMMENTS, F_IGNORE_UNKNOWN, F_NOCASE, F_LIST, F_DEPRECATED)
 
 FORMS = ["#x", "#", "##", "# x #", "//x", "//", "/*x*/", "/**/", "/* * / */", "/* a\n   b */", "#  trailing  ", "// two words", "/***/",
-         "/* x **/", "# a */ b", "   ", "\n\n", "\t", "#\t#"]
+         "/* x **/", "# a */ b", "   ", "\n\n", "\t", "#\t#",
+         "# dos\r", "/* dos\r\n lines\r\n */", "#\x0cform feed\x0b", "/*\r\n x */", "// x \r", "\r\n"]
 
 
 def needs_nl(form):
